@@ -62,7 +62,12 @@ def children():
     f3.add("i", "input")
     f3.add("o", "buf", output=True)
     f3.add_blackbox(cg.BlackBox("leaf", ["i"], ["o"]), "m", {"i": "i", "o": "o"})
-    return {"c1": c1, "c2": c2, "f1": f1, "f2": f2, "f3": f3}
+    f4 = cg.Circuit("f4")  # does not match: no input at all, but an internal gate named like the pin 'i'
+    f4.add("k0", "0")
+    f4.add("k1", "1")
+    f4.add("i", "and", fanin=["k0", "k1"])
+    f4.add("o", "buf", fanin="i", output=True)
+    return {"c1": c1, "c2": c2, "f1": f1, "f2": f2, "f3": f3, "f4": f4}
 
 
 def alphabet(names):
@@ -109,12 +114,16 @@ def alphabet(names):
     for conn in (None, {"i": U[0], "o": U[1]}, {"i": U[0], "o": U[0]}, {"zz": U[0]}, {"o": U[1], "i": "q"}, {"i": U[0], "zz": U[1]}):
         ops.append(["add_blackbox", "k", conn])
     ops.append(["add_blackbox", "2k", None])
+    ops.append(["add_blackbox", "k", None, "leaf2"])       # pins k.m.i, k.o
+    ops.append(["add_blackbox", "k.m", None])              # pins k.m.i (clashes with the former), k.m.o
+    ops.append(["add", "k.i", "buf", None, None, False])   # a plain node named like a pin
+    ops.append(["add", "k.o", "and", [U[0]], None, False])
     for ch in ("c1", "c2"):
         for conn in (None, {"x": U[0]}, {"x": U[0], "g" if ch == "c1" else "w": U[1]}, {"nope": U[0]}, {"x": "q"},
                      {"g" if ch == "c1" else "w": U[0], "x": U[1]}):
             ops.append(["add_subcircuit", ch, "s", conn])
     ops.append(["add_subcircuit", "c2", "k", None])
-    for ch in ("f1", "f2", "f3"):
+    for ch in ("f1", "f2", "f3", "f4"):
         ops.append(["fill_blackbox", "k", ch])
     ops.append(["fill_blackbox", "nok", "f1"])
     return ops
@@ -129,7 +138,9 @@ def core_alphabet():
             ["disconnect", "a", "b"], ["disconnect", "k.o", "b"], ["remove", "a"], ["remove", "k.i"], ["remove", "k.o"], ["set_output", "b", True],
             ["add_blackbox", "k", None], ["add_blackbox", "k", {"i": "a", "o": "b"}], ["add_blackbox", "k", {"i": "a", "zz": "b"}],
             ["add_subcircuit", "c1", "s", {"x": "a", "g": "b"}], ["add_subcircuit", "c2", "s", {"x": "a"}], ["add_subcircuit", "c2", "k", None],
-            ["fill_blackbox", "k", "f1"], ["fill_blackbox", "k", "f3"], ["fill_blackbox", "k", "f2"], ["fill_blackbox", "s_m", "f1"]]
+            ["fill_blackbox", "k", "f1"], ["fill_blackbox", "k", "f3"], ["fill_blackbox", "k", "f2"], ["fill_blackbox", "s_m", "f1"],
+            ["fill_blackbox", "k", "f4"], ["add_blackbox", "k", None, "leaf2"], ["add_blackbox", "k.m", None],
+            ["add", "k.i", "buf", None, None, False]]
 
 
 def seed_circuits():
@@ -173,7 +184,10 @@ def do_op(c, op, kids):
     if k == "set_output":
         return c.set_output(op[1], op[2])
     if k == "add_blackbox":
-        bb = cg.BlackBox("leaf", ["i"], ["o"])
+        if len(op) > 3 and op[3] == "leaf2":
+            bb = cg.BlackBox("leaf2", ["m.i"], ["o"])  # a pin name that looks hierarchical
+        else:
+            bb = cg.BlackBox("leaf", ["i"], ["o"])
         return c.add_blackbox(bb, op[1], dict(op[2]) if op[2] is not None else None)
     if k == "add_subcircuit":
         return c.add_subcircuit(kids[op[1]], op[2], dict(op[3]) if op[3] is not None else None)
